@@ -761,6 +761,17 @@ def run(ck):
                                   "world %s (%d records): ingest_many(<%s>) gives other verdicts than ingesting the same records one by one" % (w["name"], len(recs), fname),
                                   {"kind": "ingest-form", "form": fname, "world": w["name"], "records": recs[:60]})
                     break
+            # a monitor that re-reads a growing file from the top sees records again: the verdicts depend on the SET of records
+            for fname, seq in (("whole-file-read-twice", recs + recs), ("prefix-then-whole-file", recs[: len(recs) // 2] + recs),
+                               ("every-record-twice-in-a-row", [r for x in recs for r in (x, x)])):
+                a = TraceAggregator()
+                a.ingest_many(seq)
+                forms_checked += 1
+                if verdict_key(a) != want:
+                    ck.fail_input("C13:repeated-records-change-verdict:" + fname,
+                                  "world %s (%d records): ingesting %s gives other verdicts than ingesting each record once" % (w["name"], len(recs), fname),
+                                  {"kind": "ingest-form", "form": fname, "world": w["name"], "records": recs[:60]})
+                    break
             a = TraceAggregator()
             for i in range(0, len(recs), 3):
                 a.ingest_many(r for r in recs[i:i + 3])
